@@ -84,6 +84,9 @@ def Obj.asVal (id : Nat) : Obj → Val
 
 def splitDots (s : String) : List String := s.splitOn "."
 
+/-- the injected object a pointer / struct value held by a local refers to -/
+def Env.entryAt (e : Env) (id : Nat) : Option (String × Obj) := e.base[id]?
+
 def baseIndex (e : Env) (n : String) : Nat := e.base.findIdx (fun p => p.1 == n)
 
 /-- core.GetStructAttributeValue on an injected object: `none` = reflect panics
@@ -111,6 +114,11 @@ def getValue (e : Env) (name : String) : Res Val :=
     match e.lookupBase a with
     | some o => (match getField o b with | some f => .ok f.asVal | none => .panic)
     | none => match e.lookupVar a with
+      | some (.other _ id) =>
+        -- a local holding (a pointer to) an injected object: its fields are read through it
+        (match e.entryAt id with
+         | some (_, o) => (match getField o b with | some f => .ok f.asVal | none => .panic)
+         | none => .panic)
       | some _ => .panic          -- FieldByName on a local that is not a struct
       | none => .err none
   | [a, b, c] =>
@@ -197,14 +205,34 @@ def setValue (e : Env) (name : String) (v : Val) : Res Env :=
   match splitDots name with
   | [a] =>
     (match e.lookupBase a with
-     | some o => (match setSingle o v with
-        | .ok o' => .ok (e.setBase a o') | .err c => .err c | .panic => .panic)
+     | some o =>
+       -- a struct assigned to an injected pointer to a struct of the same type is copied into it
+       -- (all structs of the object language have one type)
+       (match o, v with
+        | .struct true _, .other _ id =>
+          (match e.entryAt id with
+           | some (_, .struct _ fields) => .ok (e.setBase a (.struct true fields))
+           | _ => (match setSingle o v with
+              | .ok o' => .ok (e.setBase a o') | .err c => .err c | .panic => .panic))
+        | _, _ =>
+          (match setSingle o v with
+           | .ok o' => .ok (e.setBase a o') | .err c => .err c | .panic => .panic))
      | none => .ok (e.setVar a v))
   | [a, b] =>
     (match e.lookupBase a with
      | some o => (match setField o b v with
         | .ok o' => .ok (e.setBase a o') | .err c => .err c | .panic => .panic)
      | none => match e.lookupVar a with
+        | some (.other k id) =>
+          -- a local holding a pointer to an injected struct writes through it; a local holding a
+          -- struct value is a copy that cannot be set
+          (match e.entryAt id with
+           | some (n, o) =>
+             if k == .ptr then
+               (match setField o b v with
+                | .ok o' => .ok (e.setBase n o') | .err c => .err c | .panic => .panic)
+             else (match o with | .struct _ _ => .err none | _ => .panic)
+           | none => .panic)
         | some _ => .panic            -- obj.Type() of a non-struct local / FieldByName
         | none => .err none)
   | [a, b, c] =>
